@@ -36,6 +36,7 @@ PROPS = {
     "C19": dict(runs=(400000, 40000000), chunk=100),
     "C20": dict(runs=(400000, 40000000), chunk=100),
     "SMOKE": dict(runs=(200, 2000), chunk=50),
+    "SIMSELF": dict(runs=(48, 480), chunk=3),
 }
 BUDGET = {"quick": 25.0, "thorough": 600.0}  # seconds of exploration after the build: the run count is whatever fits
 LEVEL = collections.defaultdict(lambda: "exploration", {"C20": "fault_enumeration"})
@@ -301,9 +302,15 @@ def run_check(a, prop, tier, seed, spec, scratch, t_start):
     chunk = spec["chunk"]
     workers = os.cpu_count() or 4
     chunks = [(i, min(chunk, total_runs - i)) for i in range(0, total_runs, chunk)]
+    results, infra, tails = [], [], []
+    if prop not in ("SIMSELF", "SMOKE"):
+        # the simulator checks the parts of itself that the unchanged proxy never exercises (deadlines, connected
+        # datagram sockets, half-close): three worlds, a few milliseconds
+        res, tail, err = run_bin(binary, ["-sim.prop", "SIMSELF", "-sim.seed", str(seed), "-sim.first", "0", "-sim.runs", "3"], 120, scratch)
+        if err or not res or any(r.get("infra") for r in res):
+            die2("simulator self-test failed: %s %s" % (err, [r.get("infra") for r in (res or [])][:3]))
     t_explore = time.time()
     deadline = t_explore + budget
-    results, infra, tails = [], [], []
 
     def work(ch):
         first, n = ch
@@ -484,7 +491,7 @@ def run_check(a, prop, tier, seed, spec, scratch, t_start):
                         "a clean batch is evidence, not proof: schedules and inputs are sampled"],
         "wall_s": round(wall, 1), "violations": sum(len(i) for _, i in reported),
     }
-    if not a.no_evidence and prop != "SMOKE":
+    if not a.no_evidence and prop not in ("SMOKE", "SIMSELF"):
         os.makedirs(os.path.join(V, "evidence"), exist_ok=True)
         json.dump(ev, open(os.path.join(V, "evidence", prop + ".json"), "w"), indent=1)
 
@@ -499,7 +506,7 @@ def run_check(a, prop, tier, seed, spec, scratch, t_start):
         return 2 if exit_code == 0 else exit_code
     if evaluations == 0:
         die2("no world was run")
-    if judged == 0 and prop != "SMOKE" and exit_code == 0:
+    if judged == 0 and prop not in ("SMOKE",) and exit_code == 0:
         die2("the oracle made no judgement at all")
     return exit_code
 
